@@ -1,0 +1,11 @@
+//go:build !verif
+
+package ugo
+
+func verifPoint(int, *VM) {}
+
+func verifPoolPoint(int, *vmPool) {}
+
+func verifPoolSwap(vm *VM) *VM { return vm }
+
+func verifPoolPut(*VM) {}
